@@ -1,4 +1,5 @@
 import CwMt.Model.Registry
+import CwMt.Model.Staking
 import CwMt.Driver.Util
 /-
   Line-protocol front end of the `wasm` slice: s-expressions, the scripted contract (the Lean twin
@@ -56,6 +57,10 @@ def parseSx (text : String) : Option (List Sx) :=
 structure DExt where
   syms : List (String × String) := []
   tags : List (Nat × String) := []
+  /-- state of the staking + distribution modules (CwMt/Model/Staking.lean) -/
+  stk : Staking.SState := Staking.SState.init
+  /-- `StakeKeeper::setup` was called (the `staking_info` record exists) -/
+  stkOn : Bool := false
   deriving Inhabited
 
 abbrev DChain := Chain DExt
@@ -149,6 +154,21 @@ def toMsg (syms : List (String × String)) (m : Sx) : Option Msg :=
   | some "clr" => do
     let c ← nth 1
     pure (.wasmClearAdmin (real c.atom))
+  | some "deleg" => do
+    let v ← nth 1; let c ← nth 2
+    pure (.ext .staking (strBytes ("deleg " ++ v.atom ++ " " ++ c.atom)))
+  | some "undeleg" => do
+    let v ← nth 1; let c ← nth 2
+    pure (.ext .staking (strBytes ("undeleg " ++ v.atom ++ " " ++ c.atom)))
+  | some "redeleg" => do
+    let v ← nth 1; let w ← nth 2; let c ← nth 3
+    pure (.ext .staking (strBytes ("redeleg " ++ v.atom ++ " " ++ w.atom ++ " " ++ c.atom)))
+  | some "withdraw" => do
+    let v ← nth 1
+    pure (.ext .distribution (strBytes ("withdraw " ++ v.atom)))
+  | some "setwd" => do
+    let a ← nth 1
+    pure (.ext .distribution (strBytes ("setwd " ++ real a.atom)))
   | some "send" => do
     let t ← nth 1; let f ← nth 2
     let funds ← parseCoins f.atom
@@ -165,13 +185,113 @@ def toMsg (syms : List (String × String)) (m : Sx) : Option Msg :=
   | _ => none
 
 -- ---------------------------------------------------------------------------------------------
+-- staking / distribution as router modules (the model of CwMt/Model/Staking.lean behind `extExec`)
+
+def stkCfgOf (syms : List (String × String)) : Staking.Cfg :=
+  { pool := "staking_module", valid := fun a => isBound syms a }
+
+def stkChainOf (ch : DChain) (blk : Block) : Staking.Chain :=
+  { st := ch.ext.stk, bank := ch.bank, time := blk.time / 1000000000, height := blk.height }
+
+def stkBack (ch : DChain) (sc : Staking.Chain) : DChain :=
+  { ch with bank := sc.bank, ext := { ch.ext with stk := sc.st } }
+
+def oneCoin (tok : String) : Option Coin := (parseCoins tok).bind List.head?
+
+def coinStr (c : Coin) : String := toString c.amount ++ c.denom
+
+def stkResult (ch : DChain) (r : Outcome Staking.Chain) (ev : Event) : Outcome (AppResponse × DChain) :=
+  match r with
+  | .ok sc => .ok ({ events := [ev], data := none }, stkBack ch sc)
+  | .err => .err
+  | .panic => .panic
+  | .outOfFuel => .outOfFuel
+
+/-- `StakeKeeper::execute` / `DistributionKeeper::execute` with their events -/
+def stkExec (ch : DChain) (blk : Block) (sender : Addr) (payload : Val) : Outcome (AppResponse × DChain) :=
+  let cfg := stkCfgOf ch.ext.syms
+  let sc := stkChainOf ch blk
+  match tokens (bytesStr payload) with
+  | ["deleg", v, c] =>
+    match oneCoin c with
+    | some coin =>
+      stkResult ch (Staking.delegate cfg sc sender v coin)
+        { ty := "delegate", attrs := [⟨"validator", v⟩, ⟨"amount", coinStr coin⟩, ⟨"new_shares", toString coin.amount⟩] }
+    | none => .err
+  | ["undeleg", v, c] =>
+    match oneCoin c with
+    | some coin =>
+      stkResult ch (Staking.undelegate sc sender v coin)
+        { ty := "unbond", attrs := [⟨"validator", v⟩, ⟨"amount", coinStr coin⟩,
+                                     ⟨"completion_time", "2022-09-27T14:00:00+00:00"⟩] }
+    | none => .err
+  | ["redeleg", v, w, c] =>
+    match oneCoin c with
+    | some coin =>
+      stkResult ch (Staking.redelegate sc sender v w coin)
+        { ty := "redelegate", attrs := [⟨"source_validator", v⟩, ⟨"destination_validator", w⟩, ⟨"amount", coinStr coin⟩] }
+    | none => .err
+  | ["withdraw", v] =>
+    let rw := match Staking.updateRewards sc.st sc.time v with
+      | .ok st => ((Staking.KMap.get? st.stakes (sender, v)).map (fun (sh : Staking.Shares) => sh.rewards.floor)).getD 0
+      | _ => 0
+    stkResult ch (Staking.withdrawRewards cfg sc sender v)
+      { ty := "withdraw_delegator_reward", attrs := [⟨"validator", v⟩, ⟨"sender", sender⟩,
+                                                       ⟨"amount", toString rw ++ sc.st.info.bondedDenom⟩] }
+  | ["setwd", a] =>
+    stkResult ch (Staking.setWithdraw cfg sc sender a)
+      { ty := "set_withdraw_address", attrs := [⟨"withdraw_address", a⟩] }
+  | _ => .err
+
+/-- `StakingSudo::Slash` -/
+def stkSudo (ch : DChain) (blk : Block) (payload : Val) : Outcome (AppResponse × DChain) :=
+  match tokens (bytesStr payload) with
+  | ["slash", v, p] =>
+    match p.toNat? with
+    | some n =>
+      match Staking.sudoSlash (stkChainOf ch blk) v ⟨n⟩ with
+      | .ok sc => .ok ({}, stkBack ch sc)
+      | .err => .err
+      | .panic => .panic
+      | .outOfFuel => .outOfFuel
+    | none => .err
+  | _ => .err
+
+def fmtDelegation (denom : String) : Outcome (Option (Nat × Nat)) → String
+  | .ok none => "none"
+  | .ok (some (a, r)) => toString a ++ ":" ++ (if r = 0 then "-" else toString r ++ ":" ++ denom)
+  | .err => "err"
+  | _ => "panic"
+
+def fmtAllDelegations (sep : String) (r : Outcome (List (String × Nat))) : String :=
+  match r with
+  | .ok ds => sep.intercalate (ds.map fun p => p.1 ++ ":" ++ toString p.2)
+  | .err => "err"
+  | _ => "panic"
+
+def strSort (xs : List String) : List String := xs.mergeSort (fun a b => a < b || a == b)
+
+def fmtStk (ext : DExt) : String :=
+  let s := ext.stk
+  if !ext.stkOn && s.validators.isEmpty && s.stakes.isEmpty && s.vinfo.isEmpty && s.queue.isEmpty && s.withdraw.isEmpty then ""
+  else
+    let stakes := strSort (s.stakes.map fun p => p.1.1 ++ "/" ++ p.1.2 ++ ":" ++ toString p.2.stake.atomics ++ ":" ++ toString p.2.rewards.atomics)
+    let vinfo := strSort (s.vinfo.map fun p => p.1 ++ ":" ++ toString p.2.stake ++ ":" ++ toString p.2.last ++ ":" ++ "+".intercalate (strSort p.2.stakers))
+    let queue := s.queue.map fun u => u.delegator ++ "/" ++ u.validator ++ ":" ++ toString u.amount ++ ":" ++ toString u.payoutAt
+    let wd := strSort (s.withdraw.map fun p => p.1 ++ ">" ++ p.2)
+    let vals := s.validators.map fun v => v.address ++ ":" ++ toString v.commission.atomics
+    " stk{info=" ++ s.info.bondedDenom ++ ":" ++ toString s.info.unbondingTime ++ ":" ++ toString s.info.apr.atomics ++
+      ";vals=" ++ ",".intercalate vals ++ ";stakes=" ++ ",".intercalate stakes ++ ";vinfo=" ++ ",".intercalate vinfo ++
+      ";queue=" ++ ",".intercalate queue ++ ";wd=" ++ ",".intercalate wd ++ "}"
+
+-- ---------------------------------------------------------------------------------------------
 -- the scripted contract
 
 mutual
 
 /-- smart query evaluated on the snapshot: the target's `query` entry point interprets the script
 read-only and answers `"<tag>:<notes>"` -/
-partial def smartQuery (ch : DChain) (target : String) (script : List Sx) : Option String :=
+partial def smartQuery (now : Nat) (ch : DChain) (target : String) (script : List Sx) : Option String :=
   if !isBound ch.ext.syms target then none else
   match ch.contracts.get? target with
   | none => none
@@ -180,12 +300,12 @@ partial def smartQuery (ch : DChain) (target : String) (script : List Sx) : Opti
     match ch.ext.tags.lookup cd.codeId with
     | none => none
     | some tag =>
-      match interp ch true script ((ch.cstore.get? target).getD []) {} [] with
+      match interp now ch true script ((ch.cstore.get? target).getD []) {} [] with
       | (.ok _, notes) => some (tag ++ ":" ++ ";".intercalate notes)
       | _ => none
 
 /-- runs the actions; returns the outcome and the notes (recorded also on failure) -/
-partial def interp (ch : DChain) (ro : Bool) (acts : List Sx) (own : Store Val) (resp : Response)
+partial def interp (now : Nat) (ch : DChain) (ro : Bool) (acts : List Sx) (own : Store Val) (resp : Response)
     (notes : List String) : Outcome (Response × Store Val) × List String :=
   match acts with
   | [] => (.ok (resp, own), notes)
@@ -195,7 +315,7 @@ partial def interp (ch : DChain) (ro : Bool) (acts : List Sx) (own : Store Val) 
     let real (s : String) := realOf ch.ext.syms s
     let valid (s : String) := isBound ch.ext.syms s
     let next := fun (own' : Store Val) (resp' : Response) (notes' : List String) =>
-      interp ch ro rest own' resp' notes'
+      interp now ch ro rest own' resp' notes'
     match a 0 with
     | "w" =>
       if ro then (.err, notes) else
@@ -252,7 +372,7 @@ partial def interp (ch : DChain) (ro : Bool) (acts : List Sx) (own : Store Val) 
     | "qsmart" =>
       let r := real (a 1)
       let script := (l[2]?.map Sx.list).getD []
-      next own resp (notes ++ [match smartQuery ch r script with
+      next own resp (notes ++ [match smartQuery now ch r script with
         | some s => "qsmart=" ++ penc s
         | none => "qsmart=err"])
     | "qinfo" =>
@@ -265,6 +385,14 @@ partial def interp (ch : DChain) (ro : Bool) (acts : List Sx) (own : Store Val) 
       next own resp (notes ++ [match (a 1).toNat?.bind (fun n => ch.ext.tags.lookup (n + 1000000)) with
         | some s => "qcode=" ++ s
         | none => "qcode=err"])
+    | "qdeleg" =>
+      let sc : Staking.Chain := { st := ch.ext.stk, bank := ch.bank, time := now, height := 0 }
+      next own resp (notes ++ ["qdeleg=" ++ fmtDelegation ch.ext.stk.info.bondedDenom
+        (Staking.queryDelegation (stkCfgOf ch.ext.syms) sc (real (a 1)) (a 2))])
+    | "qalldeleg" =>
+      let sc : Staking.Chain := { st := ch.ext.stk, bank := ch.bank, time := 0, height := 0 }
+      next own resp (notes ++ ["qalldeleg=" ++ fmtAllDelegations "," (Staking.queryAllDelegations (stkCfgOf ch.ext.syms) sc (real (a 1)))])
+    | "qbonded" => next own resp (notes ++ ["qbonded=" ++ ch.ext.stk.info.bondedDenom])
     | "sub" =>
       match (a 1).toNat?, l[3]?, (l[4]?).bind (toMsg ch.ext.syms) with
       | some id, some payload, some m =>
@@ -307,13 +435,13 @@ def scripted (tag : String) : Code DExt where
       | .reply r => bytesStr r.payload
     match scriptOf text with
     | some acts =>
-      let (res, notes) := interp ch false acts own {} []
+      let (res, notes) := interp (_env.block.time / 1000000000) ch false acts own {} []
       (res, tag ++ "|" ++ hex32 (fnv text) ++ "|" ++ ";".intercalate notes)
     | none => (.err, tag ++ "|" ++ hex32 (fnv text) ++ "|unparsed")
   query := fun m _env ch own =>
     match scriptOf (unquote (bytesStr m)) with
     | some acts =>
-      match interp ch true acts own {} [] with
+      match interp (_env.block.time / 1000000000) ch true acts own {} [] with
       | (.ok _, notes) => .ok (strBytes ("\"" ++ tag ++ ":" ++ ";".intercalate notes ++ "\""))
       | _ => .err
     | none => .err
@@ -374,8 +502,11 @@ def cfgOf (app : DApp) : Config DExt where
     match app.ch.ext.syms.lookup ("i2:" ++ hex chk ++ ":" ++ creator ++ ":" ++ hex salt) with
     | some r => .ok r
     | none => .ok ("unbound-salted-" ++ hex chk ++ "-" ++ creator ++ "-" ++ hex salt)
-  extExec := fun _ _ _ _ _ => .err
-  extSudo := fun _ _ _ => .err
+  extExec := fun kind ch blk sender payload =>
+    match kind with
+    | .staking | .distribution => stkExec ch blk sender payload
+    | _ => .err
+  extSudo := fun ch blk payload => stkSudo ch blk payload
 
 
 def fmtDump (app : DApp) : String :=
@@ -385,7 +516,7 @@ def fmtDump (app : DApp) : String :=
     p.1 ++ "=" ++ toString p.2.codeId ++ "," ++ p.2.creator ++ "," ++ p.2.admin.getD "~" ++ "," ++
       penc p.2.label ++ "," ++ toString p.2.created)
   let store := ";".intercalate ((ch.cstore.filter (fun p => !p.2.isEmpty)).map fun p => p.1 ++ "=" ++ fmtRecords p.2)
-  "bank{" ++ bank ++ "} contracts{" ++ cons ++ "} store{" ++ store ++ "} other{}"
+  "bank{" ++ bank ++ "} contracts{" ++ cons ++ "} store{" ++ store ++ "} other{}" ++ fmtStk ch.ext
 
 def setApp (st : WState) (app : DApp) : WState :=
   { st with apps := st.apps.set st.cur app }
@@ -401,6 +532,13 @@ def addTrace (app : DApp) (tr : Trace) : DApp :=
   { app with trace := app.trace ++ tr.map fmtTraceEntry }
 
 def noExtQuery : ExtKind → DChain → Block → Val → Outcome Val := fun _ _ _ _ => .err
+
+/-- `set_block` / `update_block`: the block changes, then `process_queue(..).unwrap()` runs on the live storage -/
+def runQueue (st : WState) (app : DApp) : WState × String :=
+  let sc := stkChainOf app.ch app.block
+  match Staking.processQueue (stkCfgOf app.ch.ext.syms) sc.time sc.st sc.bank sc.st.queue with
+  | .ok (s', bank') => (setApp st { app with ch := { app.ch with bank := bank', ext := { app.ch.ext with stk := s' } } }, "ok")
+  | _ => (setApp st app, "panic")
 
 def stepWasm (st : WState) (line : String) : WState × String :=
   match parseSx line with
@@ -494,10 +632,35 @@ def stepWasm (st : WState) (line : String) : WState × String :=
       | none => (st, "bad-op")
     | "block" =>
       match (a 1).toNat?, (a 2).toNat? with
-      | some h, some t => (setApp st { app with block := { app.block with height := h, time := t } }, "ok")
+      | some h, some t => runQueue st { app with block := { app.block with height := h, time := t } }
       | _, _ => (st, "bad-op")
     | "next-block" =>
-      (setApp st { app with block := { app.block with height := app.block.height + 1, time := app.block.time + 5000000000 } }, "ok")
+      runQueue st { app with block := { app.block with height := app.block.height + 1, time := app.block.time + 5000000000 } }
+    | "stk-setup" =>
+      match (a 2).toNat?, (a 3).toNat? with
+      | some unb, some apr =>
+        let ext := { app.ch.ext with stk := { app.ch.ext.stk with info := ⟨a 1, unb, ⟨apr⟩⟩ }, stkOn := true }
+        (setApp st { app with ch := { app.ch with ext := ext } }, "ok")
+      | _, _ => (st, "bad-op")
+    | "stk-val" =>
+      match (a 2).toNat? with
+      | some c =>
+        match Staking.addValidator (stkChainOf app.ch app.block) ⟨a 1, ⟨c⟩⟩ with
+        | .ok sc => (setApp st { app with ch := stkBack app.ch sc }, "ok")
+        | .err => (st, "err")
+        | _ => (st, "panic")
+      | none => (st, "bad-op")
+    | "sudo-slash" =>
+      let (r, ch', tr) := App.sudo cfg app.block fuelMax app.ch (.ext (strBytes ("slash " ++ a 1 ++ " " ++ a 2)))
+      (setApp st (addTrace { app with ch := ch' } tr), outcomeStr r fun r => "ok " ++ fmtResp r)
+    | "q-deleg" =>
+      (st, fmtDelegation app.ch.ext.stk.info.bondedDenom
+        (Staking.queryDelegation (stkCfgOf syms) (stkChainOf app.ch app.block) (real (a 1)) (a 2)))
+    | "q-alldeleg" =>
+      let r := Staking.queryAllDelegations (stkCfgOf syms) (stkChainOf app.ch app.block) (real (a 1))
+      (st, match r with
+        | .ok [] => "-"
+        | _ => fmtAllDelegations "," r)
     | "block-info" => (st, toString app.block.height ++ " " ++ toString app.block.time ++ " " ++ penc app.block.chainId)
     | "init-bal" =>
       match parseCoins (a 2) with
